@@ -352,5 +352,53 @@ ROUND3B_TECH = {
 for _k, _v in ROUND3B_TECH.items():
     CLAIMS[_k]["technique"] = CLAIMS[_k]["technique"] + _v
 
+# ---- hunt-2 addenda: rules written for the defects of the second hunt (DESIGN.md §8.8) ----------------------------------
+HUNT2 = {
+ "C13": " An element-wise exchange of inline storage between two containers is preceded by the fact that they are different objects; in "
+        "intrusive_list a link holder that was the operand of std::move is not read again before it is assigned (R.no-use-after-move).",
+ "C15": " A memcpy whose source is null when empty (a view's data(), a string's buffer) runs only under count != 0 or source != nullptr "
+        "(B2.copy-source-nonnull).",
+ "C16": " After move assignment of an owning pointer the previously held object is not held by the source on any path "
+        "(O.move-assign-releases); a forwarding-reference pack of a free construction helper is not forwarded inside a loop.",
+ "C17": " std::move / forward is not applied to a member whose declared type is an lvalue reference (R.move-through-reference-member); an "
+        "assignment reads no field of its source after the held value's destructor ran.",
+ "C19": " Every conversion the {}-spec parser can select reaches an output call in format_integer; a formatter of sized text (string, "
+        "string_view) never passes data() on without size(); every printf conversion, the float placeholders included, pops exactly one "
+        "argument on every path.",
+ "C20": " The field length of print_digits is not summed in int (B6.digits-length).",
+}
+for _k, _v in HUNT2.items():
+    CLAIMS[_k]["text"] = CLAIMS[_k]["text"] + _v
+
+# ---- round-4 addenda (DESIGN.md §8.9) ----------------------------------------------------------------------------------
+ROUND4 = {
+ "C01": " The frame look-up masks (block address) - 1 (a large block may start exactly on a superblock boundary).",
+ "C02": " A bucket's mutex, tree and head slab are only combined with a slab of that bucket (E.bucket-of-slab).",
+ "C03": " realloc's copying fallback expands the unpoisoned range of the old block on the slab path and on the large path.",
+ "C05": " A bucket's mutex, partial tree and head slab are only combined with a slab of that bucket: the bucket is _bkts[slab->index], or "
+        "the slab was read out of the bucket, or it was just constructed for the bucket's index (E.bucket-of-slab).",
+ "C09": " The depth of a split node is a counter advanced only past digits that were compared equal (E.split-depth-tested); begin() and "
+        "operator++ hand out only positions whose mask bit was seen set on that path, or the end position (E.iterator-present).",
+ "C13": " An argument is not read after std::move was applied to the container's elements; the heap pointer and the capacity of a "
+        "small_vector object change on the same paths, the inline extent only next to a null pointer (I.capacity-storage-paired).",
+ "C14": " A chain walk is not advanced through a `next` link that was overwritten for the same node on that path (K.next-after-relink).",
+ "C16": " An assignment never mentions its by-reference source after the held object was destroyed.",
+ "C17": " A manual_box of static storage duration is constant-initialised (constinit witness); copy/move construction from a same-type "
+        "source of any value category selects the copy or move constructor.",
+ "C18": " Unsigned count-down loops of the shift operators keep their counter above zero (interval analysis with x % K == 0 and x >= 1 "
+        "giving x >= K); the proxy's copy assignment reads the source reference only.",
+ "C19": " Sized text (a parameter or a member such as fmt_impl::fmt) is never passed on as data() without size().",
+ "C20": " Sized text is never passed on as data() without size() (T.sized-text-complete).",
+}
+for _k, _v in ROUND4.items():
+    CLAIMS[_k]["text"] = CLAIMS[_k]["text"] + _v
+ROUND4_TECH = {
+ "C09": "; per-path dataflow over a 'next digit tested' / 'mask bit tested' fact",
+ "C13": "; per-path sets of field writes per object",
+ "C17": "; compile-fail witness (constinit) in the type-level unit",
+}
+for _k, _v in ROUND4_TECH.items():
+    CLAIMS[_k]["technique"] = CLAIMS[_k]["technique"] + _v
+
 NOT_YET = "check not built yet in this revision (see DESIGN.md §7 order of work); not claimed until it exists"
 NA = {}
